@@ -24,6 +24,7 @@ CLAIM = {
             "pushed only on the branch where the spent output of the streamed previous transaction is a witness "
             "program and `false` only elsewhere, the previous transaction is accepted only if its txid equals the "
             "input's outpoint txid and the output index exists, and the encoder writes exactly the wrapped PSBT. "
+            "(R19.5) no size limit handed to read_to_limit / take in a decoder is below MAX_MESSAGE_SIZE. "
             "Does not decide value-level round-trip equality (runtime values).",
     "note": "rustc const evaluation of associated consts; bitcoin_consensus_derive / serde_bolt primitive codecs trusted",
     "technique": "static analysis: registry/exhaustiveness cross-check + encode/decode sibling agreement over MIR",
@@ -43,6 +44,7 @@ def run(ctx):
     types = r192(ctx, debolt, variants)
     r193(ctx, serbolt, types)
     r194(ctx)
+    r195(ctx)
 
 
 def short(t):
@@ -494,3 +496,39 @@ def r194(ctx, rid="R19.4"):
     ok = len(enc) == 1 and "psbt" in render(ev.expr(enc[0].args[0]))
     ctx.ob(rid, ok, "StreamedPSBT::encode/writes-psbt", "StreamedPSBT encoder does not write exactly the wrapped PSBT", where=f"{eb.file}:{eb.line}",
            sample="self.psbt.consensus_encode(writer)")
+
+
+def r195(ctx):
+    ctx.rule("R19.5", "a decoder never caps an embedded object below what a legal frame can carry: every size limit "
+                      "handed to read_to_limit / take in vls-protocol is at least MAX_MESSAGE_SIZE")
+    p = ctx.prog
+    mx = [v for k, (v, ty) in p.consts.items() if p.defs[k].name == P + "msgs::MAX_MESSAGE_SIZE"]
+    if not mx:
+        raise R.Broken("anchor missing: const vls_protocol::msgs::MAX_MESSAGE_SIZE")
+    mx = mx[0]
+    n = 0
+    for b in sorted(p.bodies.values(), key=lambda x: x.name):
+        if b.d.krate != "vls_protocol":
+            continue
+        fv = None
+        for bi, c in b.calls():
+            nm = (c.callee.name if c.callee else "") + "|" + (c.decl.name if c.decl else "")
+            if "Read::read_to_limit" in nm:
+                idx = 2
+            elif nm.split("|")[0].endswith("Read::take") or "io::Read::take" in nm:
+                idx = 1
+            else:
+                continue
+            if len(c.args) <= idx:
+                continue
+            n += 1
+            lim = c.args[idx].int_value()
+            fv = fv or fnview(ctx, b, policy=False)
+            shown = render(fv.expr(c.args[idx]))[:60]
+            # a limit that is not a constant is computed from the frame (e.g. the declared length): accepted
+            ok = lim is None or lim >= mx
+            ctx.ob("R19.5", ok, f"{R.owner_name(p, b)}/read-limit",
+                   f"`{R.owner_name(p, b)}` reads at most {lim} bytes (`{shown}`) of an embedded object although a legal message "
+                   f"carries up to {mx} bytes: a larger object that the encoder happily writes is cut short and no longer decodes",
+                   where=f"{b.file}:{c.line}", sample=f"limit {shown}")
+    ctx.floor("R19.5", "size-limited reads in vls-protocol decoders", n, 1)
